@@ -121,6 +121,8 @@ impl Context {
         self.proc.with_env_mut(|data| {
             data.set(name, value);
         });
+        // the process row is otherwise only written at start
+        let _ = self.runtime.cache().store().upsert_proc(&self.proc);
     }
 
     pub fn get_env<T>(&self, name: &str) -> Option<T>
